@@ -204,6 +204,9 @@ static int reftable_stack_reload_once(struct reftable_stack *st, char **names,
 	struct reftable_table *new_tables =
 		reftable_calloc(sizeof(struct reftable_table) * names_len);
 	int new_readers_len = 0;
+	/* set for the readers taken over from the handle; on failure they stay
+	   open, as st->readers and st->merged still use them. */
+	char *reused = reftable_calloc(names_len + 1);
 	struct reftable_merged_table *new_merged = NULL;
 	int i;
 
@@ -218,6 +221,7 @@ static int reftable_stack_reload_once(struct reftable_stack *st, char **names,
 			if (cur[j] && 0 == strcmp(cur[j]->name, name)) {
 				rd = cur[j];
 				cur[j] = NULL;
+				reused[new_readers_len] = 1;
 				break;
 			}
 		}
@@ -293,9 +297,12 @@ static int reftable_stack_reload_once(struct reftable_stack *st, char **names,
 
 done:
 	for (i = 0; i < new_readers_len; i++) {
+		if (reused[i])
+			continue;
 		reader_close(new_readers[i]);
 		reftable_reader_free(new_readers[i]);
 	}
+	reftable_free(reused);
 	reftable_free(new_readers);
 	reftable_free(new_tables);
 	reftable_free(cur);
